@@ -265,6 +265,10 @@ func (c *vfC15Ctx) apply(o vfC15Op) (fails []vfC15Fail) {
 		fails = append(fails, vfC15Fail{key, d})
 	}
 	h := c.h
+	if (o.K == vfC15Ow || o.K == vfC15OwX || o.K == vfC15Del) && int(o.A) >= len(c.live) {
+		c.skip = true // no such live object (an earlier insert was refused)
+		return
+	}
 	switch o.K {
 	case vfC15Ins:
 		size := cfg.sizes[o.A]
@@ -397,7 +401,11 @@ func (c *vfC15Ctx) apply(o vfC15Op) (fails []vfC15Fail) {
 		fmt.Fprintf(&c.log, "%s:%s;", what, vfKitErrText(err))
 		if err != nil {
 			c.outcome = what + ":error"
-			fail("write-error@"+what, map[string]any{"err": vfKitErrText(err)})
+			if grown {
+				fail("grown-heap-not-persisted/write-error", map[string]any{"err": vfKitErrText(err), "call": what})
+			} else {
+				fail("write-error@"+what, map[string]any{"err": vfKitErrText(err)})
+			}
 			return
 		}
 		nh := NewWritableFractalHeap(cfg.block)
@@ -552,7 +560,11 @@ func (c *vfC15Ctx) checkPersist() (fails []vfC15Fail) {
 	m1 := vfKitNewMem()
 	a1, err := h.WriteToFile(m1, m1, sb)
 	if err != nil {
-		fail("write-error@WriteToFile", map[string]any{"err": vfKitErrText(err)})
+		if grown {
+			fail("grown-heap-not-persisted/write-error", map[string]any{"err": vfKitErrText(err), "call": "WriteToFile"})
+		} else {
+			fail("write-error@WriteToFile", map[string]any{"err": vfKitErrText(err)})
+		}
 		return
 	}
 	img := m1.snapshot()
